@@ -1,6 +1,7 @@
 import StepModel.GenCxxMirror
 import StepModel.GenCxxFlags
 import StepModel.RegistryModel
+import StepModel.Accessors
 /-!
 # C02 — generated dictionary and classes mirror the EXPRESS schema
 
@@ -714,3 +715,42 @@ theorem C02_registry_walk_complete (k : Registry.Kind) (mid : List Registry.Op) 
   Registry.walk_complete k mid st hm
 
 end StepModel.GenCxx
+
+/-! ## generated accessors read back what the mutator stored
+
+Over the emission templates regenerated from classes_attribute.c (`Generated.accGetter/accConstGetter/accSetter`). -/
+namespace StepModel.GenCxx
+open StepModel.Generated StepModel.Accessors
+
+/-- For EVERY attribute kind (integer, real/number, string/binary, logical/boolean, enumeration, select, entity reference,
+    aggregate, inverse aggregate, inverse entity), every prior content of the member (including a null pointer) and every
+    non-null value: the generated mutator stores without a null dereference, and both generated accessors then return
+    exactly that value. -/
+theorem C02_accessor_roundtrip {V : Type} (fresh : V) (k : AccKind) (c : Option V) (v : V) :
+    ∃ c', setter fresh k c (some v) = .done c' none ∧
+      (∃ c'', getter fresh k c' = .done c'' (some (some v))) ∧
+      constGetter fresh k c' = .done c' (some (some v)) := by
+  cases k <;> cases c <;> exact ⟨some v, rfl, ⟨_, rfl⟩, rfl⟩
+
+/-- The accessors do not change what is stored: reading (with either accessor) after a store leaves the stored value. -/
+theorem C02_accessor_read_is_pure {V : Type} (fresh : V) (k : AccKind) (c : Option V) (v : V) :
+    ∃ c', setter fresh k c (some v) = .done c' none ∧ getter fresh k c' = .done c' (some (some v)) := by
+  cases k <;> cases c <;> exact ⟨some v, rfl, rfl⟩
+
+/-- The one place where an accessor does NOT read back what the mutator stored: after storing a NULL entity reference the
+    non-const accessor allocates a new instance and returns (and keeps) it; the const accessor returns null.  Asked of the
+    real code: see notes/C02.md, finding `accessor:entity-null-materialised`. -/
+theorem C02_accessor_null_entity_witness {V : Type} (fresh : V) (c : Option V) :
+    setter fresh .entity c none = .done none none ∧
+    constGetter fresh .entity none = .done none (some none) ∧
+    getter fresh .entity none = .done (some fresh) (some (some fresh)) :=
+  ⟨by cases c <;> rfl, rfl, rfl⟩
+
+/-- A null aggregate argument is dereferenced by the aggregate mutator (`ShallowCopy( *x )`): precondition of the
+    generated code, made explicit. -/
+theorem C02_accessor_null_aggregate_witness {V : Type} (fresh : V) (c : Option V) :
+    setter fresh .aggregate c none = .crash := by
+  cases c <;> rfl
+
+end StepModel.GenCxx
+
